@@ -279,7 +279,7 @@ def _job_worker(idx):
         reached |= m.reached
         summary['outcomes'][pr.outcome] = summary['outcomes'].get(pr.outcome, 0) + 1
         pid = len(summary['paths'])
-        pinfo = dict(id=pid, decisions=[bool(d) for d in m.taken], outcome=pr.outcome, detail=pr.detail, nobl=len(m.obligations),
+        pinfo = dict(id=pid, decisions=[int(d) for d in m.taken], choices=dict(m.choice_log), outcome=pr.outcome, detail=pr.detail, nobl=len(m.obligations),
                      nass=len(m.assumptions), ndiv=len(m.divisors))
         summary['paths'].append(pinfo)
         summary['nsyms'] = max(summary['nsyms'], len(m.syms))
